@@ -34,6 +34,10 @@ CLAIMED = {
    technique="bounded exhaustive enumeration of provider populations x holder shapes x every permutation of candidate iteration order on the real container; per-field ranking reference model",
    text="All provider multisets of size <=3 over {plain,primary} x {custom,default name} x qualifier {undeclared,'',g1,g2} are combined with holders (reflect.StructOf) carrying single and slice fields with each of six qualifier arguments, an optional no-candidate field at every position, pairs of independently qualified fields, and optional variants; every permutation of the providers' iteration order is started for real. Per field independently: nothing outside the requested qualifier set is injected, slices hold exactly the survivors, a unique Primary wins, else a unique default-named component, else any survivor; no survivor => error iff required.",
    note="Trusted: iteration-order shim; StructOf holders. Outside: >3 providers (thorough 4), more than three fields per holder."),
+ "C09": dict(engine=E1, design="§7 C09",
+   technique="fault enumeration by deviation-bounded DFS over reached fault sites (all singles, all reachable pairs) on the real container, plus unsatisfiable required/optional points and configuration values as exhaustive program variants",
+   text="All 729 three-node graphs x three lazy masks, each with a configuration value per node, a user post-processor implementing every callback, a scanner, a factory post-processor, two loaders and two runners: every reached callback site (AfterPropertiesSet, Init, BeforeInstantiation, AfterInstantiation, Properties, EarlyReference, Before/AfterInitialization per node, scanner per node, factory post-processor, loaders, runners) is armed alone and in every reachable pair. Oracle: Run returns an error, no panic (also none in spawned goroutines), terminates within budget, and no runner runs unless the first fault is a runner's. 26k variants with one unsatisfiable by-name / by-type / configuration point (required or optional) on each node: required => error, optional => identical wiring and event log to the program without the point and zero value in the field.",
+   note="Trusted: harness callbacks (faults are returned errors); termination budgets. Outside: three or more simultaneous faults; panicking user callbacks."),
  "C10": dict(engine=E1+" (+E2 scheduler for scan-phase schedules)", design="§7 C10",
    technique="differential bounded exhaustive exploration: each program under all permutations of iteration and registration order plus every single per-call order deviation on the real container; outcome signatures (tied points masked) must coincide",
    text="C08 families under all provider permutations (registration order follows), holders that are candidates for their own field with <=2 other candidates under all permutations of (providers, holder), all 2-node graphs with self loops and 3-node graphs under all 6x6 (iteration, registration) orders, and 2-provider programs under every single non-default answer of every registry enumeration: the signature (success, per-point target, sorted slice contents, ties masked) must be identical across all executions of one program.",
